@@ -100,14 +100,11 @@ func callMethod(obj interface{}, name string, arg interface{}) {
 
 func txVersion(typ string) byte { return typ[len(typ)-1] - '0' }
 
-// encode writes obj the way the manifest's round_trip says.
-func encode(ts *TypeSpec, obj interface{}) []byte {
-	out := gio.NewDataOutputX()
+// encodeInto writes obj into out the way the manifest's round_trip says (packs with their type
+// short, elements and records with their own writer).
+func encodeInto(ts *TypeSpec, obj interface{}, out *gio.DataOutputX) {
 	switch ts.Class {
 	case "pack":
-		if ts.Registered {
-			return pack.ToBytesPack(obj.(pack.Pack))
-		}
 		pack.WritePack(out, obj.(pack.Pack))
 	case "element":
 		callMethod(obj, "Write", out)
@@ -127,7 +124,37 @@ func encode(ts *TypeSpec, obj interface{}) []byte {
 	default:
 		panic("encode: class " + ts.Class)
 	}
+}
+
+// encodeFn names the library call whose result encodeRaw returns (finding keys of held.go).
+func encodeFn(ts *TypeSpec) string {
+	switch {
+	case ts.Class == "pack" && ts.Registered:
+		return "pack.ToBytesPack"
+	case ts.Class == "pack":
+		return "pack.WritePack"
+	case ts.Class == "element":
+		return strings.SplitN(ts.Name, "#", 2)[0] + ".Write"
+	}
+	return strings.SplitN(ts.Name, "#", 2)[0] + ".WriteRec"
+}
+
+// encodeRaw returns the bytes exactly as the library hands them out (ToBytesPack's result, or
+// the ToByteArray result of the output written to).
+func encodeRaw(ts *TypeSpec, obj interface{}) []byte {
+	if ts.Class == "pack" && ts.Registered {
+		return pack.ToBytesPack(obj.(pack.Pack))
+	}
+	out := gio.NewDataOutputX()
+	encodeInto(ts, obj, out)
 	return out.ToByteArray()
+}
+
+// encode is what the oracles use: the slice the library returned goes into the held-results
+// ring as returned (held.go), the oracle works on a private copy taken at once.
+func encode(ts *TypeSpec, obj interface{}) []byte {
+	raw := encodeRaw(ts, obj)
+	return ringKeep(ts, raw)
 }
 
 type decoded struct {
@@ -179,6 +206,7 @@ func decode(ts *TypeSpec, enc []byte) (d decoded) {
 		}
 	})
 	d.avail = int(in.Available())
+	ringVerify("decoding a " + ts.Name)
 	return d
 }
 
@@ -377,7 +405,7 @@ func roundTrip(ts *TypeSpec, tree *Node, where string) bool {
 	// registered packs additionally through the one-call API: ToPack -> ToBytesPack
 	if ts.Class == "pack" && ts.Registered {
 		var again []byte
-		if p := vlib.Catch(func() { again = pack.ToBytesPack(pack.ToPack(enc)) }); p != nil {
+		if p := vlib.Catch(func() { again = ringKeep(ts, pack.ToBytesPack(pack.ToPack(enc))) }); p != nil {
 			fail(typ+":decode-panics", fmt.Sprintf("%s: pack.ToPack/ToBytesPack panicked: %v", where, p), detail(more()))
 			return false
 		}
@@ -490,6 +518,7 @@ func checkRecords(ts *TypeSpec, tree, exp *Node, dec interface{}, where string, 
 		fail(typ+".Records:records-differ", fmt.Sprintf("%s: GetRecords() of the decoded %s (%d records filled by %s) panicked: %v", where, typ, len(rb.Recs), rb.RecMode, p), detail(nil))
 		return false
 	}
+	ringVerify("GetRecords() of a decoded " + typ)
 	if len(got) != len(rb.Recs) {
 		fail(typ+".Records:records-differ", fmt.Sprintf("%s: %s was filled with %d records by %s, GetRecords() of the decoded pack returns %d", where, typ, len(rb.Recs), rb.RecMode, len(got)), detail(nil))
 		return false
@@ -725,6 +754,7 @@ func main() {
 		return
 	}
 	man = m
+	ringOn = true // encode()/decode() keep the returned slices and re-verify them (held.go)
 	var names []string
 	registered := 0
 	for _, t := range man.Types {
@@ -755,6 +785,20 @@ func main() {
 		totalPatterns += len(pats)
 		c.Cases("sweep/"+name, len(pats), func(i int, r *vlib.Rand) { sweep(ts, pats[i], i, r) })
 	}
+	ringVerify("the end of the round-trip sections")
+	ringOn = false // the cases below hold their results themselves (and run on many goroutines)
+	nHeld := c.N(30, 600)
+	for _, name := range names {
+		name := name
+		c.Cases("held/"+name, nHeld, func(i int, r *vlib.Rand) {
+			heldPackCase(fmt.Sprintf("held/%s#%d", name, i), name, names, r, false)
+		})
+	}
+	nHeldPar := c.N(30, 400) * len(names)
+	c.ParallelCases("held-parallel", nHeldPar, 8, func(i int, r *vlib.Rand) {
+		name := names[int(vlib.Mix(uint64(i))%uint64(len(names)))]
+		heldPackCase(fmt.Sprintf("held-parallel#%d", i), name, names, r, true)
+	})
 	c.Note(fmt.Sprintf("manifest: %d types (%d registered packs, %d of them nested into containers), %d leaf patterns", len(names), registered, len(nestedTypes), totalPatterns))
 
 	sh := int64(c.NShards)
@@ -776,5 +820,19 @@ func main() {
 	c.Floor("history_inplace_steps", int64(n)/10/sh, c.Counter("history_inplace_steps"))
 	c.Floor("history_setter_rewrites", int64(n)/10/sh, c.Counter("history_setter_rewrites"))
 	c.Floor("sweep_history_flips", int64(totalPatterns)/10/sh, c.Counter("sweep_history_flips"))
+	// held results and live objects (held.go)
+	nh := int64(nHeld)*int64(len(names)) + int64(nHeldPar)
+	c.Floor("held_ring_results", total/5/sh, c.Counter("held_ring_results"))
+	c.Floor("held_ring_reverifications", total/sh, c.Counter("held_ring_reverifications"))
+	c.Floor("held_cases", nh/10/sh, c.Counter("held_cases"))
+	c.Floor("held_parallel_cases", int64(nHeldPar)/10/sh, c.Counter("held_parallel_cases"))
+	c.Floor("held_results", nh/2/sh, c.Counter("held_results"))
+	c.Floor("held_reverifications", nh*4/sh, c.Counter("held_reverifications"))
+	c.Floor("held_object_rewalks", nh*4/sh, c.Counter("held_object_rewalks"))
+	c.Floor("held_objects_built", nh/4/sh, c.Counter("held_objects_built"))
+	c.Floor("held_objects_decoded", nh/5/sh, c.Counter("held_objects_decoded"))
+	c.Floor("held_multi_object_histories", nh/10/sh, c.Counter("held_multi_object_histories"))
+	c.Floor("held_multi_object_decodes", nh/5/sh, c.Counter("held_multi_object_decodes"))
+	c.Floor("held_input_overwrites", nh/10/sh, c.Counter("held_input_overwrites"))
 	c.Finish()
 }
